@@ -126,7 +126,7 @@ func (e *eng) rules() {
 	}
 	// ---- PushFrame: growth, nil-initialised locals, (start, end) pair
 	newSP := "(-ARGSCNT+LOCALCNT+SP)"
-	npf := 0
+	npf, withLocals, grown := 0, 0, 0
 	for i, ef := range e.eff["PushFrame"] {
 		if ef.end != "return" {
 			e.s.Unk("O8", fmt.Sprintf("memory.PushFrame / path %d", i), e.posM["PushFrame"], ef.end)
@@ -145,11 +145,19 @@ func (e *eng) rules() {
 			problems = append(problems, "no growth request for localCnt-argsCnt slots before the locals are written")
 		}
 		// every store: nil, inside [sp, new sp), into the final stack
-		hasLocals := false
+		// unless the path has established that there are no new locals, the
+		// slots from the old sp on must be written
+		hasLocals := true
 		for _, c := range ef.conds {
-			if c == "<(SP,"+newSP+")" {
-				hasLocals = true
+			if c == "!<(SP,"+newSP+")" {
+				hasLocals = false
 			}
+		}
+		if hasLocals {
+			withLocals++
+		}
+		if strings.HasPrefix(ef.fields["stack"], "append(") {
+			grown++
 		}
 		for _, st := range ef.stores {
 			if st.base != ef.fields["stack"] {
@@ -178,8 +186,8 @@ func (e *eng) rules() {
 		}
 		e.unchanged("O8", "PushFrame", ef, "sp", "fp", "stack")
 	}
-	if npf < 6 {
-		e.s.Unk("O8", "memory.PushFrame / paths", e.posM["PushFrame"], fmt.Sprintf("expected 6 paths (grow x 0,1,2+ locals), found %d", npf))
+	if npf < 2 || withLocals == 0 || grown == 0 || grown == npf {
+		e.s.Unk("O8", "memory.PushFrame / paths", e.posM["PushFrame"], fmt.Sprintf("expected paths with and without growth and with new locals; found %d paths, %d with locals, %d growing", npf, withLocals, grown))
 	}
 	// ---- readers of the frame pair
 	if ef, ok := e.one("PopFrame"); ok {
@@ -249,13 +257,13 @@ func short(s string) string {
 }
 
 type cloneEffect struct {
-	conds   []string
-	res     map[string]string // fields of the returned memory
-	reuse   map[string]string // fields of the recycled memory afterwards (if any)
-	same    bool              // the returned memory is the recycled one
-	copies  []string
-	end     string
-	stale   []string // methods called on the recycled memory
+	conds  []string
+	res    map[string]string // fields of the returned memory
+	reuse  map[string]string // fields of the recycled memory afterwards (if any)
+	same   bool              // the returned memory is the recycled one
+	copies []string
+	end    string
+	stale  []string // methods called on the recycled memory
 }
 
 func (e *eng) cloneEffects(withReuse bool) []cloneEffect {
